@@ -684,7 +684,37 @@ var c05DeepGoals = []string{
 	"catch(th(%d), bottom, true).", "mk(%d, L), app(L, [z], R), atom(z).", "mk(%d, L), findall(L, true, [M]), L == M.",
 }
 
+// (i) long lists and wide compounds: 3 million elements under the workers' stack limit stand for the 10 million (160 MB
+// of cells) that fit into the bound with room to spare. A traversal that recurses once per element - a list is a
+// right-nested term - needs a stack as deep as the list is long.
+var c05LongGoals = []string{
+	"length(L, %d), \\+ atom(L).", "length(L, %d), catch(throw(L), B, true), length(B, K).", "length(L, %d), G = foo(L), \\+ G.",
+	"length(L, %[1]d), length(M, %[1]d), L = M.", "length(L, %d), L = M, M == L.", "length(L, %[1]d), length(M, %[1]d), L \\== M, compare(O, L, M).",
+	"length(L, %d), unify_with_occurs_check(L, M).", "length(L, %d), subsumes_term(L, L).", "length(L, %d), L \\= a.",
+	"length(L, %d), copy_term(L, M), L \\== M.", "length(L, %d), findall(L, true, [M]).", "length(L, %d), term_variables(L, Vs), length(Vs, K).",
+	"length(L, %d), sort(L, S), length(S, K).", "length(L, %d), assertz(big(L)), big(X), length(X, K).", "length(L, %d), T =.. [f|L], functor(T, F, A).",
+	"length(L, %d), write(L).", "length(L, %d), append(L, [a], M), length(M, K).", "length(L, %d), [H|T] = L, length(T, K).",
+	"functor(T, f, %[1]d), functor(U, f, %[1]d), T = U.", "functor(T, f, %d), copy_term(T, U), T \\== U.", "functor(T, f, %d), \\+ atom(T).",
+	"functor(T, f, %d), T =.. L, length(L, K).",
+}
+
 func c05Deep(w *h.W, emit func(c *c05Case, kind, detail string, size int)) {
+	for _, g := range c05LongGoals {
+		if !w.Mine() {
+			continue
+		}
+		c := &c05Case{Kind: "goal", Goal: fmt.Sprintf(g, 3000000), Setup: ":- dynamic(big/1).\n", Deep: true, Tag: "long list"}
+		w.WAL(c)
+		w.GuardFor(c, 6*time.Minute)
+		kind, detail := c05RunDeep(c)
+		w.Unguard()
+		w.Nontrivial("long:" + c.Goal)
+		if kind == "horizon" {
+			w.Outcome("deep:still running at the resource guard")
+			kind = ""
+		}
+		emit(c, kind, detail, len(c.Goal))
+	}
 	for _, n := range []int{100000, 300000} {
 		for _, g := range c05DeepGoals {
 			if !w.Mine() {
@@ -822,7 +852,7 @@ func c05Replay(b []byte) (string, string, bool) {
 func init() {
 	h.Register(&h.Check{
 		ID: "C05",
-		Rule: "(a) ALL strings of <= L symbols over a 29-symbol token alphabet taken from the lexer's switch (atoms, variables, digits, '.', ',', '|', every bracket, '-', '+', '\\\\', quote characters, 0', 0x, :-, layout, %, /*, a non-ASCII letter, a float prefix) each as is, with '.', and with ' .\\n', handed to Exec and to Query; all byte strings of length 1 and (quick: every 7th; thorough: all) of length 2; (b) EVERY registered procedure (read from the interpreter through a verif-tagged accessor, so the matrix follows the code) except halt/0,1 x all tuples of 14 (thorough: 22) argument shapes for arity <= 3 and of 8 (arity 4, 5) / 6 shapes above (unbound, atoms incl. empty, [], integers incl. extremes, float, compound, proper/partial/improper list, string, a stream, callable and non-callable terms), first answer plus one retry then Close, on an interpreter with real streams and (quick: every 5th tuple) on the documented prolog.New(nil, nil); (c) EVERY evaluable functor of eval's dispatch tables (read through a verif-tagged accessor) x a 25-value operand grid (unbound, atom, integers incl. 63/64/-64/extremes, floats incl. -0.0, largest and smallest, compound, string, lists, nested error) for both operands, unary ones also over every unary functor nested inside (thorough: every binary too), each under is/2, three comparisons and catch/3; (d) every procedure of arity 1..4 x 7 kinds of stream argument (closed input/output, open text/binary input/output, at end, closed alias) in every argument position x all tuples of 10 other shapes (quick, arity 4: 5); (e) database histories: all conjunctions of <= 3 (thorough: 4) goals from a 20-goal menu that calls, retracts, asserts, abolishes and enumerates a dynamic predicate with three clauses while calls of it are open, with and without a final fail, up to 20 answers; (f) stream-state histories: all sequences of <= 3 (4) of 14 operations that open, close, alias and make current input/output streams (the standard streams included), each followed by each of 17 probes that use a stream; (g) 20 file names x 8 forms of include/ensure_loaded/consult (directive, initialization goal, between clauses, goal, retried goal, list notation) over an in-memory file system with self-including, mutually including and mutually loading files, a chain of 300 inclusions, a missing file, a file with a syntax error; (h) deep recursion: 12 recursion shapes (tail and non-tail counting, list construction and traversal, through call/1, catch/3, if-then-else, disjunction, mutual recursion, an error thrown at the bottom, append/3, findall/3 and ==/2 of a long list) at depths 100000 and 300000 under a 256 MB stack limit (the scaled equivalent of 1.2 million levels under Go's default limit, which is what fits into a 2 GB memory bound), first answer. Distinct = text or goal.",
+		Rule: "(a) ALL strings of <= L symbols over a 29-symbol token alphabet taken from the lexer's switch (atoms, variables, digits, '.', ',', '|', every bracket, '-', '+', '\\\\', quote characters, 0', 0x, :-, layout, %, /*, a non-ASCII letter, a float prefix) each as is, with '.', and with ' .\\n', handed to Exec and to Query; all byte strings of length 1 and (quick: every 7th; thorough: all) of length 2; (b) EVERY registered procedure (read from the interpreter through a verif-tagged accessor, so the matrix follows the code) except halt/0,1 x all tuples of 14 (thorough: 22) argument shapes for arity <= 3 and of 8 (arity 4, 5) / 6 shapes above (unbound, atoms incl. empty, [], integers incl. extremes, float, compound, proper/partial/improper list, string, a stream, callable and non-callable terms), first answer plus one retry then Close, on an interpreter with real streams and (quick: every 5th tuple) on the documented prolog.New(nil, nil); (c) EVERY evaluable functor of eval's dispatch tables (read through a verif-tagged accessor) x a 25-value operand grid (unbound, atom, integers incl. 63/64/-64/extremes, floats incl. -0.0, largest and smallest, compound, string, lists, nested error) for both operands, unary ones also over every unary functor nested inside (thorough: every binary too), each under is/2, three comparisons and catch/3; (d) every procedure of arity 1..4 x 7 kinds of stream argument (closed input/output, open text/binary input/output, at end, closed alias) in every argument position x all tuples of 10 other shapes (quick, arity 4: 5); (e) database histories: all conjunctions of <= 3 (thorough: 4) goals from a 20-goal menu that calls, retracts, asserts, abolishes and enumerates a dynamic predicate with three clauses while calls of it are open, with and without a final fail, up to 20 answers; (f) stream-state histories: all sequences of <= 3 (4) of 14 operations that open, close, alias and make current input/output streams (the standard streams included), each followed by each of 17 probes that use a stream; (g) 20 file names x 8 forms of include/ensure_loaded/consult (directive, initialization goal, between clauses, goal, retried goal, list notation) over an in-memory file system with self-including, mutually including and mutually loading files, a chain of 300 inclusions, a missing file, a file with a syntax error; (h) deep recursion: 12 recursion shapes (tail and non-tail counting, list construction and traversal, through call/1, catch/3, if-then-else, disjunction, mutual recursion, an error thrown at the bottom, append/3, findall/3 and ==/2 of a long list) at depths 100000 and 300000 under a 256 MB stack limit (the scaled equivalent of 1.2 million levels under Go's default limit, which is what fits into a 2 GB memory bound); (i) long lists and wide compounds: 22 goals that unify, compare, copy, collect the variables of, sort, assert, throw, call, write, take apart lists of 3 million elements and compounds of 3 million arguments (standing for 10 million under the default limit), first answer. Distinct = text or goal.",
 		Explanation: "state = a fresh (or regularly renewed) real interpreter in an isolated worker process; transition = one Exec/Query call; oracle: the worker process survives (a fatal runtime error is attributed to the exact input through a write-ahead record, re-running the batch in fine mode), the call returns (per-case watchdog), an error raised by a predicate is error(Formal, _) with an ISO formal error term, and no returned error is the residue of a recovered Go panic",
 		Assumptions: []string{"workers run in an empty scratch directory with GOMAXPROCS=1 and a 256 MB goroutine stack limit so that unbounded recursion dies quickly", "a Go error returned for a text that does not parse is the API's way to report a syntax error and is accepted"},
 		Work:          c05Work,
